@@ -8,6 +8,7 @@ Monitors on analyze_transactions (the real function, called on generated transac
   * exhaustive enumeration of the finite bucket function (tag subsets x letter cases x sign/zero)
 """
 import itertools
+import os
 from collections import defaultdict
 from datetime import datetime
 from fractions import Fraction
@@ -296,6 +297,43 @@ def grid(rec):
     rec.case(n)
 
 
+HASHSEED_CHILD = """
+import json, sys
+sys.path.insert(0, sys.argv[1])
+from tally.classification import categorize_amount, normalize_amount
+from tally.analyzer import analyze_transactions
+from datetime import datetime
+tagsets = [['income', 'transfer'], ['transfer', 'income'], ['investment', 'transfer'], ['transfer', 'investment'], ['income', 'investment'], ['investment', 'income', 'transfer'],
+           ['Transfer', 'INCOME', 'x'], ['refund', 'investment', 'Income']]
+out = []
+for tags in tagsets:
+    for a in (1234.56, -1234.56):
+        st = analyze_transactions([{'amount': a, 'tags': list(tags), 'merchant': 'M', 'category': 'C', 'subcategory': 'S', 'date': datetime(2025, 1, 2), 'description': 'd', 'source': 's'}])
+        out.append([tags, a, categorize_amount(a, tags), normalize_amount(a, tags), {k: st[k] for k in sorted(st) if k.endswith('_total') or k.startswith('transfers_')}])
+print(json.dumps(out, sort_keys=True))
+"""
+
+
+def hashseed_probe(rec):
+    """Every process hashes strings differently (PYTHONHASHSEED): the bucket of a transaction that carries two special tags is the same in all of them."""
+    import subprocess
+    outs = {}
+    for seed in range(8):
+        p = subprocess.run([core.PY, '-c', HASHSEED_CHILD, core.SRC], capture_output=True, text=True, env=dict(os.environ, PYTHONHASHSEED=str(seed)), timeout=120)
+        outs[seed] = p.stdout.strip() if p.returncode == 0 else 'exit %d: %s' % (p.returncode, p.stderr[-200:])
+        rec.count('bucket_tables_computed_under_another_hash_seed')
+    rec.case()
+    if len(set(outs.values())) != 1 or not outs[0].startswith('['):
+        a = outs[0]
+        other = next(s_ for s_ in outs if outs[s_] != a)
+        import json as _json
+        try:
+            diff = [(x, y) for x, y in zip(_json.loads(a), _json.loads(outs[other])) if x != y][:1]
+        except Exception:
+            diff = [a[:200], outs[other][:200]]
+        rec.violation('bucket-depends-on-the-process-hash-seed', f'PYTHONHASHSEED=0 vs {other}: {str(diff)[:500]}', {'kind': 'hashseed'})
+
+
 def cli_partition(rec, rnd, tmp, k):
     """`tally up` on the same statement rows kept in ONE source versus split over several sources (in another order, with an unreadable or
     missing source in between): the figures of the JSON report must not depend on the split."""
@@ -445,6 +483,7 @@ def run(rec, shard, nshards, t):
         shutil.rmtree(tmp, ignore_errors=True)
     if shard == 0:
         grid(rec)
+        hashseed_probe(rec)
         if t != 'quick':
             core.repo_tests_with_monitors(rec, 'C06')
     total = 4000 if t == 'quick' else 100000
@@ -466,6 +505,9 @@ def run(rec, shard, nshards, t):
 def replay(rec, case):
     core.import_tally()
     rnd = core.rng_for('C06', 'replay')
+    if case['kind'] == 'hashseed':
+        hashseed_probe(rec)
+        return
     if case['kind'] == 'cell':
         grid(rec)
     elif case['kind'] == 'cli-partition':
